@@ -1,12 +1,12 @@
 #!/usr/bin/env python3
-"""Writes /verif/seeded/<id>/meta.json from the confirmation logs (repository test-suite with the change, demonstration with /
-without the change) and from the logs of the registered checks run against the change (tools/seedtest.py).
+"""Writes /verif/seeded/<id>/meta.json from seeded/<id>/confirm.json (tools/seedconfirm.py: repository test-suite with the change,
+demonstration with / without the change, all in scratch copies) and seeded/<id>/checks.json (tools/seedcheck.py: the registered checks
+run against a scratch copy with the change applied), and prints the catch matrix.
 
-  tools/seedmeta.py <dir with confirm-*.log, resuite.log, batch*.log>
+  tools/seedmeta.py [--md]      (--md: the matrix as a markdown table for DESIGN.md)
 """
 import json, os, re, sys, glob
 ROOT = os.path.dirname(os.path.dirname(os.path.abspath(__file__)))
-LOGS = sys.argv[1] if len(sys.argv) > 1 else "/root/seedlogs"
 
 # (property broken, what the change is, what it needs in order to manifest) -- condensed from each author's notes (agent_notes.md)
 INFO = {
@@ -40,8 +40,8 @@ INFO = {
  "C14-b": ("C14", "same idea as C05-b: From<OgreUnique> for OgreArc drops the unique", "only OgreArc::from(unique) / unique.into()"),
  "C15-a": ("C15", "FullSyncMove::available_elements_count uses saturating_sub", "tail has wrapped past 2^32 while head has not"),
  "C15-b": ("C15", "AtomicMove::drop walks head..tail as a numeric range (skipped when !needs_drop)", "payload with destructor, leftovers straddling the 2^32 wrap at teardown"),
- "C16-a": ("C16", "?", "?"),
- "C16-b": ("C16", "?", "?"),
+ "C16-a": ("C16", "AtomicMove::leak_slot_internal loads head once, outside the full/recede retry loop", ">= 2 producers colliding at the full boundary while the consumer frees >= 2 slots: the receding producer spins forever on a stale head and blocks every later publication"),
+ "C16-b": ("C16", "FullSyncMove::leak_slot_internal gets an unlocked 'is it full?' fast path (torn tail/head read)", "a producer sampling tail and head around a concurrent consume+publish: phantom 'full' rejection although there is room"),
  "C17-a": ("C17", "arc atomic drop_resources drains only as many events as were buffered when it started", "a listener with a backlog dropped while a producer completes a send during the drain; the id is then recycled"),
  "C17-b": ("C17", "ogre_arc atomic send_derived walks the live list to the sentinel while references were taken from the earlier count", "a listener creation completing inside a producer's fan-out"),
  "C18-a": ("C18", "full-sync NonBlockingQueue::dequeue reads the slot after consume() has released it", "queue (nearly) full and an enqueue overwriting the released slot before the late read"),
@@ -54,56 +54,43 @@ INFO = {
 REVERTS = {"revert-C04-D2": ("C04", "b29bf14"), "revert-C05-D1": ("C05", "566407a"), "revert-C07-D11": ("C07", "c87ad6e"), "revert-C07-D12": ("C07", "6136059"), "revert-C08-D7": ("C08", "90eed7c"),
            "revert-C10-D6": ("C10", "1e5b2b4"), "revert-C06-D4": ("C06", "9972bbc"), "revert-C06-D13": ("C06", "a3f4c53")}
 
-def confirmations():
-    out = {}
-    for f in sorted(glob.glob(os.path.join(LOGS, "confirm-C*.log"))) + [os.path.join(LOGS, "resuite.log")]:
-        if not os.path.exists(f): continue
-        for l in open(f):
-            m = re.match(r"\[/tmp/wt-(C\d+) ([ab])\] (.*)", l.strip())
-            if not m: continue
-            sid = f"{m.group(1)}-{m.group(2)}"; rest = m.group(3); c = out.setdefault(sid, {})
-            if rest.startswith("suite with change") or rest.startswith("attempt"):
-                r = re.search(r"(\d+) passed, (\d+) failed", rest)
-                if r: c.setdefault("suite_attempts", []).append(f"{r.group(1)} passed, {r.group(2)} failed; failed: " + rest.split("failed:")[-1].strip())
-            elif rest.startswith("demo WITH change"): c["demo_with_change"] = rest.split(":", 1)[1].strip()
-            elif rest.startswith("demo WITHOUT change"): c["demo_without_change"] = rest.split(":", 1)[1].strip()
-            elif "builds with" in rest: c["builds_with_feature_verif"] = True
-    return out
-
-def check_runs():
-    """{seed: {prop: {exit, first_violations[]}}} from the batch logs; later runs of the same (seed, prop) replace earlier ones"""
-    out = {}
-    for f in sorted(glob.glob(os.path.join(LOGS, "batch*.log")), key=os.path.getmtime):
-        seed = None; prop = None
-        for l in open(f):
-            m = re.match(r"##### (\S+) vs", l)
-            if m: seed = m.group(1); continue
-            m = re.match(r"== (C\d+): exit (\d+)", l)
-            if m and seed: prop = m.group(1); out.setdefault(seed, {})[prop] = {"exit": int(m.group(2)), "first_violations": [], "log": os.path.basename(f)}; continue
-            if seed and prop and l.strip().startswith("what:") and len(out[seed][prop]["first_violations"]) < 2: out[seed][prop]["first_violations"].append(l.strip()[5:].strip()[:300])
-            if seed and prop and l.strip().startswith("check: " + prop): out[seed][prop]["summary"] = l.strip()[:300]
-    return out
 
 def main():
-    conf = confirmations(); runs = check_runs(); table = []
+    md = "--md" in sys.argv
+    table = []
     for d in sorted(os.listdir(os.path.join(ROOT, "seeded"))):
         p = os.path.join(ROOT, "seeded", d)
-        if not os.path.isdir(p): continue
+        if not os.path.isdir(p) or not os.path.exists(os.path.join(p, "patch.diff")): continue
+        conf = json.load(open(os.path.join(p, "confirm.json"))) if os.path.exists(os.path.join(p, "confirm.json")) else {}
+        runs = json.load(open(os.path.join(p, "checks.json"))) if os.path.exists(os.path.join(p, "checks.json")) else {}
         if d in REVERTS:
             prop, commit = REVERTS[d]
             meta = {"id": d, "breaks_property": prop, "source": f"reverse patch of the fix: commit {commit} (git diff {commit} {commit}^ -- src): the defect the machinery found must be reported again if it returns",
                     "needs": "see known_findings.json, entry " + d[len("revert-"):]}
+            what = "revert of fix " + commit
         else:
-            prop, what, needs = INFO.get(d, ("?", "?", "?"))
+            prop, what, needs = INFO.get(d, (d[:3], "see agent_notes.md", "see agent_notes.md"))
             meta = {"id": d, "breaks_property": prop, "source": "independent sub-agent given only the property text and a scratch worktree (its own notes: agent_notes.md)", "change": what, "needs": needs,
-                    "confirmed_in_scratch_worktree": conf.get(d, {}), "demonstration": sorted(os.listdir(os.path.join(p, "demo"))) if os.path.isdir(os.path.join(p, "demo")) else []}
-        r = runs.get(d, {})
-        meta["registered_checks_run_against_it"] = {k: {"cmd": f"tools/seedtest.py seeded/{d}/patch.diff {k} (= ./check {k} --tier quick on a scratch copy with the change applied)", **v} for k, v in r.items()}
-        meta["caught_by"] = sorted(k for k, v in r.items() if v["exit"] == 1)
-        meta["missed_by"] = sorted(k for k, v in r.items() if v["exit"] != 1)
+                    "demonstration": sorted(os.listdir(os.path.join(p, "demo"))) if os.path.isdir(os.path.join(p, "demo")) else []}
+        s = conf.get("suite_with_change", {}); s2 = conf.get("suite_with_change_retry", {})
+        suite_ok = bool(s.get("same_as_baseline") or s2.get("same_as_baseline"))
+        dw = {k: v["result"] for k, v in conf.get("demo_with_change", {}).items()}; dwo = {k: v["result"] for k, v in conf.get("demo_without_change", {}).items()}
+        demo_ok = (not dw and d in REVERTS) or (bool(dw) and all(not r.startswith("ok") for r in dw.values()) and all(r.startswith("ok") for r in dwo.values()))
+        meta["confirmed_in_scratch_copy"] = {"what_was_run": "tools/seedconfirm.py (scratch copy of /repo): cargo check with/without --features verif; cargo test --workspace --no-fail-fast --offline with the change; the demonstration as tests/<demo>.rs with and without the change",
+            "patch_applies": conf.get("patch_applies"), "builds_with_feature_verif": conf.get("builds_with_feature_verif"),
+            "suite_with_change": s, **({"suite_with_change_retry": s2} if s2 else {}), "suite_same_as_baseline": suite_ok,
+            "demo_with_change": dw, "demo_without_change": dwo, "confirmed": bool(conf.get("patch_applies") and suite_ok and demo_ok)}
+        meta["registered_checks_run_against_it"] = runs
+        meta["caught_by"] = sorted(k for k, v in runs.items() if v["exit"] == 1)
+        meta["missed_by"] = sorted(k for k, v in runs.items() if v["exit"] != 1)
         json.dump(meta, open(os.path.join(p, "meta.json"), "w"), indent=1)
-        table.append((d, prop, ",".join(meta["caught_by"]) or "-", ",".join(meta["missed_by"]) or "-"))
-    for t in table: print("%-16s breaks %-4s caught by %-12s not caught by %s" % t)
+        first = next((v["first_violations"][0] for k, v in sorted(runs.items()) if v["exit"] == 1 and v["first_violations"]), "")
+        table.append((d, prop, what, "yes" if meta["confirmed_in_scratch_copy"]["confirmed"] else "NO", ", ".join(meta["caught_by"]) or "-", ", ".join(meta["missed_by"]) or "-", first))
+    if md:
+        print("| change | breaks | what it is | caught by | not caught by |\n|---|---|---|---|---|")
+        for t in table: print(f"| {t[0]} | {t[1]} | {t[2][:150]} | {t[4]} | {t[5]} |")
+    else:
+        for t in table: print("%-16s breaks %-4s confirmed %-3s caught by %-28s not caught by %-20s %s" % (t[0], t[1], t[3], t[4], t[5], t[6][:110]))
 
 if __name__ == "__main__":
     main()
